@@ -95,7 +95,9 @@ def gen_tensor(rng, kinds=None, mags=None):
 def build_quantizer(spec):
   import qkeras.quantizers as qq
   kw = dict(spec["kw"])
-  if kw.get("post_training_scale") is not None:
+  if kw.get("post_training_scale") is not None and not spec.get("pts_raw"):
+    # pts_raw: the value is handed over as written (python list or number),
+    # which the constructor accepts as well
     kw["post_training_scale"] = np.array(kw["post_training_scale"], np.float32)
   return getattr(qq, spec["cls"])(**kw)
 
@@ -227,12 +229,9 @@ def apply_qnoise(q, f, how):
     return False
   if how == "var":
     v = tf.Variable(f, dtype=tf.float32, trainable=False, name="upd")
-    if isinstance(q.qnoise_factor, tf.Variable):
-      q.update_qnoise_factor(v)
-    else:
-      # BaseQuantizer.update_qnoise_factor calls Variable.eval() here, which
-      # does not exist in TF2 eager; callers pass plain numbers (scheduler).
-      q.update_qnoise_factor(float(v.numpy()))
+    # a tf.Variable argument is an explicit branch of the update API, for a
+    # variable-backed and for a float-backed knob alike
+    q.update_qnoise_factor(v)
   elif how == "const":
     q.update_qnoise_factor(np.float32(f))
   else:
